@@ -67,6 +67,7 @@ fn judge(unit: &str, input: u64, loc: &mut Local) {
 }
 
 pub fn run(ctx: &Ctx) {
+    ctx.enable_trace_pass(ctx.tier.pick(20000u64, 200000u64));
     ctx.set_rule("case = (unit, input); every residue 0..unit-per-second is combined with every quotient of the boundary set; non-trivial = sub-second residue != 0; states deduplicated by hash(unit,input)");
     ctx.assume("whole-second quotients outside the boundary set (0,1,2,3,4, 2^k-1/2^k/2^k+1, powers of ten +-1, 2^32-2, 2^32-1) are not visited; the arithmetic is a division and a remainder, so the sub-second residue (visited completely) and the quotient do not interact");
     let q = quotients(ctx.tier);
